@@ -101,13 +101,13 @@ class Prop(common.PropertyCheck):
         for _ in range(self.budget(3000, 30000)):
             d = rng.choice([47, 124, 12, 33, 92, 36, 97])
             n = rng.randrange(0, 24)
-            seg = [rng.choice([d, d, d, 97, 98, 99, 32, 36]) for _ in range(n)]
+            seg = [rng.choice([d, d, d, 97, 98, 99, 32, 36, 0]) for _ in range(n)]
             yield {'k': 'seg', 'd': d, 'supp': rng.random() < 0.5, 'seg': seg, 'auto': rng.random() < 0.3}
         # dictionaries
         printable = [c for c in range(33, 127)]
         for _ in range(self.budget(1500, 20000)):
             d = rng.choice(printable)
-            alphabet = [d, d, d] + [rng.choice(printable) for _ in range(5)] + [32, 36]
+            alphabet = [d, d, d] + [rng.choice(printable) for _ in range(5)] + [32, 36] + ([0, 0] if rng.random() < 0.3 else [])
             ntok = 2 * rng.randrange(0, 7)
             toks = []
             for _t in range(ntok):
@@ -122,8 +122,9 @@ class Prop(common.PropertyCheck):
         # whole files
         for _ in range(self.budget(150, 2000)):
             d = rng.choice([47, 124, 33, 92, 12])
+            nul = rng.random() < 0.3      # NUL-padded values as some instruments write them
             def tok():
-                alphabet = [d, d, 97, 98, 99, 32, 49]
+                alphabet = [d, d, 97, 98, 99, 32, 49] + ([0] if nul else [])
                 first = rng.choice([c for c in alphabet if c != d])
                 body = [rng.choice(alphabet) for _b in range(rng.randrange(0, 6))]
                 if rng.random() < 0.25:
@@ -144,7 +145,7 @@ class Prop(common.PropertyCheck):
                 'analysis': analysis, 'analysis_leading': rng.random() < 0.5,
                 'raw_analysis': (chr(d) * 2 + 'k' + chr(d)) if (bad_analysis and analysis) else None,
                 'analysis_placement': rng.choice(['header', 'text']) if version != 'FCS2.0' else 'header',
-                'order': rng.choice(['TDA', 'TSDA', 'TDAS'])}}
+                'order': rng.choice(['TDA', 'TSDA', 'TDAS', 'STDA', 'SDTA'])}}
 
     # ---- implementation side ------------------------------------------------
     def read_seg(self, segb, d, supp, auto=False):
